@@ -616,6 +616,7 @@ func VerifyEntry(L *Loaded, t *tableEntry, tab *FuncContract, own *FuncContract,
 	}
 	if own != nil {
 		con.requires, con.ensures, con.invs, con.assigns, con.assignsNone, con.asserts = own.requires, own.ensures, own.invs, own.assigns, own.assignsNone, own.asserts
+		con.assertsAfter, con.yields, con.callbacks = own.assertsAfter, own.yields, own.callbacks
 		con.props = append(append([]string{}, con.props...), own.props...)
 		con.safetyProps = append(append([]string{}, con.safetyProps...), own.safetyProps...)
 		own.used = true
